@@ -217,6 +217,8 @@ def execute(node: Node, cell: dict):
                     member = {"protected": copy.deepcopy(prot)}
                     if unprot:
                         member["header"] = copy.deepcopy(unprot)
+                        if cell.get("pairs"):
+                            member["header"] = _pairs(member["header"])
                     if op == "jws.serialize_compact":
                         out = jws.serialize_compact(copy.deepcopy(prot), payload, node.joct, registry=reg)
                     elif op == "jws.serialize_json.flat":
@@ -238,6 +240,9 @@ def execute(node: Node, cell: dict):
                     tok = rjws.make_flattened(text, unprot or None, payload, "HS256", node.oct, b64_payload=b64flag)
                 else:
                     tok = rjws.make_general(payload, [(text, unprot or None, "HS256", node.oct)])
+                if cell.get("pairs"):
+                    tgt_ = tok if form == "flat" else tok["signatures"][0]
+                    tgt_["header"] = _pairs(tgt_["header"])
                 if op == "jws.deserialize_compact":
                     out = jws.deserialize_compact(tok, node.joct, registry=reg)
                 elif op == "jws.extract+validate":
@@ -305,6 +310,11 @@ def execute(node: Node, cell: dict):
                     cls = jwe.FlattenedJSONEncryption if op.endswith("flat") else jwe.GeneralJSONEncryption
                     o = cls(copy.deepcopy(prot), b"c15", copy.deepcopy(unprot) or None)
                     o.add_recipient(copy.deepcopy(rh) or None, jpub)
+                    if cell.get("pairs"):
+                        if cell["shadow"] == "unprotected":
+                            o.unprotected = _pairs(o.unprotected)
+                        else:
+                            o.recipients[0].header = _pairs(o.recipients[0].header)
                     out = jwe.encrypt_json(o, None, registry=reg, **skw)
                 return ("ok", out), merged, "jwe", "produce", alg, False
             form = "compact" if compact else ("flattened" if op.endswith("flat") else "general")
@@ -319,6 +329,12 @@ def execute(node: Node, cell: dict):
             if present and param in ALG_SPECIFIC.get(alg, {}) and param not in ("apu", "apv", "skid"):
                 tok = _impose(tok, pos, param, value)
             merged = _merged_of(tok)
+            if cell.get("pairs"):
+                if cell["shadow"] == "unprotected":
+                    tok["unprotected"] = _pairs(tok["unprotected"])
+                else:
+                    tgt_ = tok if "recipients" not in tok else tok["recipients"][0]
+                    tgt_["header"] = _pairs(tgt_["header"])
             if op == "jwe.decrypt_compact":
                 out = jwe.decrypt_compact(tok, jpriv, registry=reg, **skw_pub)
             else:
@@ -339,6 +355,11 @@ def execute(node: Node, cell: dict):
 
 class _Skip(Exception):
     pass
+
+
+def _pairs(header: dict) -> list:
+    """the members of a header object as an array of [name, value] pairs (what dict.update would also swallow)"""
+    return [[k, v] for k, v in header.items()]
 
 
 def _impose(tok, pos, param, value):
@@ -450,6 +471,10 @@ def all_cells():
                     for strict in (True, False):
                         cells.append({"op": op, "pos": pos, "shadow": shadow, "param": param, "vname": vname, "value": value, "present": True,
                                       "strict": strict, "caller": "none"})
+                        if shadow == "unprotected" and vname in ("int", "null"):
+                            # the shadowing member arrives as an array of [name, value] pairs instead of an object
+                            cells.append({"op": op, "pos": pos, "shadow": shadow, "param": param, "vname": vname, "value": value, "present": True,
+                                          "strict": strict, "caller": "none", "pairs": True})
     for op in JWE_OPS:
         if "json" not in op:
             continue
@@ -463,6 +488,9 @@ def all_cells():
                             for strict in (True, False):
                                 cells.append({"op": op, "alg": alg, "pos": pos, "shadow": shadow, "param": param, "vname": vname, "value": value,
                                               "present": True, "strict": strict, "caller": "none"})
+                                if shadow != "protected" and vname in ("int", "null"):
+                                    cells.append({"op": op, "alg": alg, "pos": pos, "shadow": shadow, "param": param, "vname": vname, "value": value,
+                                                  "present": True, "strict": strict, "caller": "none", "pairs": True})
     return cells
 
 
@@ -487,7 +515,7 @@ def judge(cell, outcome, merged, family, direction, alg, r7797):
     if cell.get("shadow"):
         # the JOSE header holds a registered parameter of the wrong type, whatever a second member of that name says
         if status == "ok":
-            return ("%s:%s:accepted-shadowed-mistyped:%s<-%s" % (cell["op"], cell["param"], cell["pos"], cell["shadow"]),
+            return ("%s:%s:accepted-shadowed-mistyped:%s<-%s%s" % (cell["op"], cell["param"], cell["pos"], cell["shadow"], ":as-pairs" if cell.get("pairs") else ""),
                     "%s=%r in the %s header was accepted because the %s header carries a well-typed member of the same name (strict=%s)" % (
                         cell["param"], cell["value"], cell["pos"], cell["shadow"], cell["strict"]))
         return None
